@@ -645,7 +645,10 @@ EV_KEYS = ("level", "badness", "where", "stage", "line", "message", "before", "a
 EXPECT_ENDING = {
     "file.py::parse_and_analyse_file::with enter_file#0": ("fatal", "strict"),
     "file.py::parse_and_analyse_imports::with enter_file#0": ("fatal", "strict"),
-    "_context.py::Context.expand_starred_imports::with enter_file#0": ("fatal", "strict"),
+    # since /repo 150f7d8 the two expansion errors have their own enter_file blocks (#0: origin unknown, #1: no Python
+    # source); #2 is the block the star-imported file's root context is compiled under
+    "_context.py::Context.expand_starred_imports::with enter_file#1": ("strict",),
+    "_context.py::Context.expand_starred_imports::with enter_file#2": ("fatal", "strict"),
     "file.py::FileAnalyser.visit_AnyAssign::with DictChanges#0": ("fatal", "strict"),
     "_root_context.py::RootContextBuilder.visit_assignment::with DictChanges#0": ("strict",),
     "util.py::parse_rattr_results_from_annotation_args_impl::with redirect_stderr#0": ("fatal",),
